@@ -218,7 +218,12 @@ FAULTS = [
      {"file_only": True}),
 ]
 STMT_SEPS = [" ", "\n", "\n\n", " # c\n", "\r\n", "\t", "  # x\n\n"]
-STMT_LEADS = ["", "\n", "# c\n\n"]
+STMT_LEADS = ["", "\n", "# c\n\n",
+              # characters that some host functions treat as line ends but
+              # the language does not (a line ends in LF or CRLF), inside a
+              # string literal and inside a comment
+              "def z0 = 'l\rr\x0b\x0c\x1c\x85\u2028\u2029';\n"
+              "# c\x0b\x0c\x1d\x85\u2028 d\n"]
 
 _S = {}
 
